@@ -224,13 +224,15 @@ def beginExec (c : Cfg) (s : St) (ty : NType) (force reminder : Bool) (e : Env) 
     ({ s with next := e.lhsc + c.tbegin.getD 0 + 1, noMore := false }, filteredEv ty reminder)             -- 295-312
   else if gEnd c ty force e then (s, filteredEv ty reminder)                                             -- 314-319
   else if gType c ty force then
-    ({ s with noMore := if ty == .recovery && decide (c.interval ≤ 0) then false else s.noMore },
-     filteredEv ty reminder)                                                                              -- 329-346
+    ({ s with noMore := if ty == .recovery && decide (c.interval ≤ 0) then false else s.noMore,
+              npu := if ty == .recovery then [] else s.npu },                                             -- fix cec0506
+     filteredEv ty reminder)                                                                              -- 329-350
   else if gState c ty force e then (s, filteredEv ty reminder)                                           -- 349-376
   else
     let s := book c s ty e
     let r := userLoop c ty force reminder e s.npu s.lns e.users
-    -- 495-497: F-C03 — the list is cleared only here, not on the early-return paths above
+    -- 499-501: the list is cleared here and (since fix cec0506, F-C03a) on the type-filter return above; a Recovery
+    -- withheld by the closed period keeps it — it is re-sent later to exactly these users
     let npu := if ty == .recovery then [] else r.1
     ({ s with npu := npu, lns := r.2.1 }, some ⟨ty, reminder, true, r.2.2⟩)
 
